@@ -1,22 +1,17 @@
 (* C14 -- Cron triggers stay correct and alive across daylight-saving transitions.
    Locations are arbitrary zone tables (initial offset + list of (instant, offset) transitions) with
-   wf_zone: offsets within +-26h, transitions more than 52h apart.
-
-   PROVED for every such table, every well-formed expression, every prev:
+   wf_zone: offsets within +-26h, transitions more than 52h apart.  For every such table, every
+   well-formed expression, every prev:
      - a returned instant is strictly after prev and its LOCAL wall clock reading satisfies the
        expression (never fired early or on a non-matching reading);
-     - the call always terminates with a value or expiry (no hang on gaps, repeated hours, skipped days);
-     - a location without transitions behaves exactly as a fixed-offset location (then C02's
-       least/expiry-iff theorems apply).
-   NOT PROVED (kept as the full statement, decided by the harness's per-second wall clock oracle):
-     nft_zone_complete : forall instants t with prev < t (and t < ns if Fire ns, t <= max if Expired)
-       whose local reading matches, t is the later occurrence of a reading repeated by a fall-back
-       (exists t' < t, wall_secs z t' = wall_secs z t).
-     Missing: completeness of first_after (its three candidates find every instant after prev that
-     shows a given reading when transitions are more than 52h apart). *)
+     - the call always terminates with a value or expiry;
+     - nothing is skipped and no expiry is reported while a matching local time remains, except the
+       later occurrence of a local time repeated by a fall-back (is_repeat); a local time removed by a
+       spring-forward gap has no instant at all and is simply not fired;
+     - a location without transitions behaves exactly as a fixed-offset location (C02 applies). *)
 From Coq Require Import ZArith List.
 Require Import QzBase.Calendar QzBase.Fields.
-Require Import QzCron.CsmModel QzCron.CsmSpec QzCron.NextFire QzCron.NftProofs.
+Require Import QzCron.CsmModel QzCron.CsmSpec QzCron.NextFire QzCron.NftProofs QzCron.ZoneFinal.
 Open Scope Z_scope.
 
 Theorem C14_nft_zone_sound : forall f z prev ns,
@@ -37,3 +32,25 @@ Theorem C14_no_transitions_is_fixed_offset : forall f z prev, z_trans z = nil ->
   next_fire_time_zone f z prev = next_fire_time f (z_off0 z) prev.
 Proof. exact nft_zone_no_transitions. Qed.
 Print Assumptions C14_no_transitions_is_fixed_offset.
+
+(* a matching instant after prev that is not the repeat of an earlier instant is never passed over *)
+Theorem C14_never_skips_fresh : forall f z prev t,
+  wf_fields f = true -> wf_zone z = true -> 0 <= prev <= max_nanos ->
+  prev < t <= max_nanos -> t mod nanos = 0 -> matches_at f z t -> ~ is_repeat z t ->
+  exists ns, next_fire_time_zone f z prev = Fire ns /\ ns <= t.
+Proof. exact nft_zone_never_skips_fresh. Qed.
+Print Assumptions C14_never_skips_fresh.
+
+Theorem C14_skips_only_repeats : forall f z prev ns t,
+  wf_fields f = true -> wf_zone z = true -> 0 <= prev <= max_nanos ->
+  next_fire_time_zone f z prev = Fire ns ->
+  prev < t < ns -> t mod nanos = 0 -> matches_at f z t -> is_repeat z t.
+Proof. exact nft_zone_skips_only_repeats. Qed.
+Print Assumptions C14_skips_only_repeats.
+
+Theorem C14_no_false_expiry : forall f z prev t,
+  wf_fields f = true -> wf_zone z = true -> 0 <= prev <= max_nanos ->
+  next_fire_time_zone f z prev = Expired ->
+  prev < t <= max_nanos -> t mod nanos = 0 -> matches_at f z t -> is_repeat z t.
+Proof. exact nft_zone_no_false_expiry. Qed.
+Print Assumptions C14_no_false_expiry.
